@@ -1,10 +1,10 @@
 CONSTANTS MaxInt = 5
  MinInt <- MinIntModel
- Slots = {1, 2, 3}
- MaxDepth = 60
+ Slots = {1, 2}
+ MaxDepth = 6
  WithApi = TRUE
- EmitPaths = FALSE
- WithFaults = FALSE
+ EmitPaths = TRUE
+ WithFaults = TRUE
 SPECIFICATION Spec
 VIEW view
 ACTION_CONSTRAINT Emit
